@@ -233,6 +233,12 @@ func hookScenes() []hookScene {
 		{"settle/fixed-no-bids", fixedOpen, Op{Kind: "block", K: 3}, []string{"BeforeSellingCoinsAllocated"}},
 		{"settle/batch-last-round-winner-and-loser", append(batchOpen(0), many("bid1", "2", "8"), worth("bid2", "1", "4")), Op{Kind: "block", K: 2}, []string{"BeforeSellingCoinsAllocated"}},
 		{"settle/batch-rate-branch", append(batchOpen(2), many("bid1", "2", "3"), Op{Kind: "block", K: 2}, worth("bid2", "1", "4")), Op{Kind: "block", K: 3}, []string{"BeforeSellingCoinsAllocated"}},
+		{"settle/two-auctions-in-one-block", append(append([]Op{}, fixedOpen...), batch(0, nil), allow(1, "bid1", "10"), fbid("bid1", "bcoin", "7"),
+			Op{Kind: "place", Signer: "bid1", AID: 1, BidType: ref.BidMany, Price: "2", Denom: "acoin", Amt: "3"}), Op{Kind: "block", K: 2},
+			[]string{"BeforeSellingCoinsAllocated", "BeforeSellingCoinsAllocated"}},
+		{"settle/first-of-two-while-second-releases", []Op{fixed(0, sched(3, 4)), batch(1, nil), allow(0, "bid1", "10"), allow(1, "bid1", "10"), fbid("bid1", "bcoin", "7"),
+			{Kind: "place", Signer: "bid1", AID: 1, BidType: ref.BidMany, Price: "2", Denom: "acoin", Amt: "3"}, {Kind: "block", K: 2}}, Op{Kind: "block", K: 3},
+			[]string{"BeforeSellingCoinsAllocated"}},
 		{"settle/batch-last-round-after-extensions", append(batchOpen(1), many("bid1", "2", "3"), Op{Kind: "block", K: 2}), Op{Kind: "block", K: 4}, []string{"BeforeSellingCoinsAllocated"}},
 	}
 }
@@ -483,14 +489,12 @@ func checkHookCase(sc hookScene, pre, post *ref.State, pctx sdk.Context, res *Re
 				bad("announced-change-already-committed/"+c.Method, "the allow-list entry is already updated when %s is called", c.Method)
 			}
 		case "BeforeSellingCoinsAllocated":
-			// the auction being settled is the open one whose end time has come
-			var a *ref.Auction
-			for _, x := range pre.Auctions {
-				if x.Status == ref.StatusStarted {
-					a = x
-				}
-			}
-			if a == nil {
+			// the auction being settled is named by the first argument
+			var aid uint64
+			fmt.Sscanf(c.Args, "%d|", &aid)
+			a := pre.Auction(aid)
+			if a == nil || a.Status != ref.StatusStarted {
+				bad("wrong-arguments/"+c.Method, "listener %d was told about auction %d which is not an open auction", c.Listener, aid)
 				break
 			}
 			if v.BalOf(a.SellAddr, a.SellDenom).Cmp(pre.BalOf(a.SellAddr, a.SellDenom)) != 0 {
